@@ -25,12 +25,13 @@ from qiskit_addon_cutting.instructions import Move
 from common import CaseWriter, Res, Raw, call_canon
 
 IMPORTS = ("From Coq Require Import String QArith.\n"
-           "From CKT Require Import Common.Base Common.PolyRing Common.Ptm Model.Bases Corr.C02Corr.\n"
+           "From CKT Require Import Common.Base Common.PolyRing Common.Ptm Model.Bases Model.BasesDispatch Corr.C02Corr.\n"
            "Close Scope Q_scope. Open Scope string_scope.")
 CASE_TYPES = {
     "chk_basis": "basis_case",
     "chk_unitary": "string * (Q * Q) * list (list (Q * Q))",
     "chk_op_ptm": "(nat * nat) * (Q * Q) * list (list Q)",
+    "chk_unitary_h": "string * (Q * Q) * list (list (Q * Q))",
     "chk_move_ptm": "list (list Q)",
     "chk_thetavec": "list Q * list (Q * Q)",
 }
@@ -327,6 +328,13 @@ def run_case(w, group, spec, th2=None, cs=None, exact=True, and_judge=True):
         cs = (Fraction(1), Fraction(0))
         if name in PARAM_NAMES and hasp and pok:   # evaluation point from the gate's own float parameter
             th2, cs = family_point(name, float(g.params[0]))
+    if name in PARAM_NAMES and hasp and pok and isg and nq == 2 and mok and group != "family-near-special":
+        # specification of the gate's own matrix in the gate angle (Uh_* of Model/BasesDispatch.v), at EVERY angle
+        th = float(g.params[0])
+        w.add("unitary-h", "chk_unitary_h",
+              (Raw(f'"{name}"'), (Fraction(math.cos(th / 2)), Fraction(math.sin(th / 2))),
+               [[(Fraction(float(z.real)), Fraction(float(z.imag))) for z in row] for row in gate_matrix(g)]),
+              dict(kind="unitary-h", name=name, theta=th))
     _Rec.last = None
     r = call_canon(QPDBasis.from_instruction, g)
     d = _Rec.last
